@@ -70,7 +70,8 @@ var (
 		{name: "unset", method: ""},
 	}
 	// grant-type shapes of the registration (c=code r=refresh d=device x=token-exchange
-	// s=client_credentials (service user) b=jwt-bearer)
+	// s=client_credentials (service user) b=jwt-bearer; i=implicit p="password" e="" are grant strings the token
+	// endpoint has no handler for: registering them must not open anything)
 	shapes = map[string]string{
 		"all":        "c r d x s b",
 		"code":       "c",
@@ -81,8 +82,12 @@ var (
 		"no-te":      "c r d s b",
 		"no-cc":      "c r d x b",
 		"empty":      "",
+		// every implemented grant plus registered grant strings outside the token endpoint's grants
+		"all+foreign": "c r d x s b i p e",
+		// only such strings (the empty one is a prefix / substring of every grant type)
+		"foreign-only": "i p e",
 	}
-	shapeNames = []string{"all", "code", "code+ref", "no-code", "no-refresh", "no-device", "no-te", "no-cc", "empty"}
+	shapeNames = []string{"all", "code", "code+ref", "no-code", "no-refresh", "no-device", "no-te", "no-cc", "empty", "all+foreign", "foreign-only"}
 
 	presQuick = []string{"basic-right", "none", "id-only", "basic-pct", "basic-wrong", "basic-unknown", "basic-badescape", "basic-badescape-secret", "basic-badb64",
 		"post-right", "post-wrong", "post-unknown", "jwt-valid", "jwt-foreign", "jwt-expired", "jwt-unknown-iss", "jwt-wrongtype"}
@@ -134,6 +139,9 @@ func buildSpace(full bool, ms []string) engine.Space {
 		// where the request parameters travel: all in the body (default), grant_type moved to the URL query of
 		// the POST, or every parameter in the URL query with an empty body (handlers read r.Form / r.PostForm at different places)
 		engine.D("channel", "body", "query-grant", "query-all"),
+		// members of the ApplicationType enum beyond the two of "app": the third declared constant and a value outside
+		// the declared constants ("-" = what "app" says); a deviation, never part of a full product
+		engine.D("apptype", "-", "user_agent", "out-of-range"),
 		// provider configuration flags and storage capabilities
 		engine.D("post", "on", "off"),
 		engine.D("jwt", "on", "off"),
@@ -169,6 +177,12 @@ func grantsOf(shape string) []oidc.GrantType {
 			out = append(out, oidc.GrantTypeClientCredentials)
 		case "b":
 			out = append(out, oidc.GrantTypeBearer)
+		case "i":
+			out = append(out, oidc.GrantTypeImplicit)
+		case "p":
+			out = append(out, oidc.GrantType("password"))
+		case "e":
+			out = append(out, oidc.GrantType(""))
 		}
 	}
 	return out
@@ -179,6 +193,9 @@ func decode(sp engine.Space, v engine.Vec) caseT {
 	c := caseT{method: g("method"), shape: g("grants"), app: g("app"), keys: g("keys"), pres: g("pres"), op: g("op"), router: g("router"), channel: g("channel"),
 		post: g("post") == "on", jwt: g("jwt") == "on", refresh: g("refresh") == "on",
 		capcc: g("capcc") == "on", capte: g("capte") == "on", capdev: g("capdev") == "on"}
+	if at := g("apptype"); at != "-" {
+		c.app = at
+	}
 	c.grants = grantsOf(c.shape)
 	c.hasKeys = (c.method == "private_key_jwt") == (c.keys == "by-method")
 	c.hasSecret = c.method == "basic" || c.method == "post"
@@ -351,8 +368,13 @@ func registration(r *rig.Rig, c caseT) {
 		}
 	}
 	cl.AppType = op.ApplicationTypeWeb
-	if c.app == "native" {
+	switch c.app {
+	case "native":
 		cl.AppType = op.ApplicationTypeNative
+	case "user_agent":
+		cl.AppType = op.ApplicationTypeUserAgent
+	case "out-of-range":
+		cl.AppType = op.ApplicationType(7)
 	}
 	if c.hasKeys {
 		cl.Keys = map[string]*jose.JSONWebKey{kidCl: rig.PubJWK(keys.Get("rsa2"), kidCl)}
@@ -938,13 +960,14 @@ func TestCheck(t *testing.T) {
 	}
 	full := c.Thorough() || c.ReplayFile != ""
 	sp := buildSpace(full, methods)
-	c.SetRule("E1: full product over registration(method x grant shape x app type x keys on file) x presentation x operation x router, " +
+	c.SetRule("E1: full product over registration(method x grant shape(11, two with registered grant strings the token endpoint does not implement: implicit, password, the empty string) x app type x keys on file) x presentation x operation x router, " +
 		"crossed with at most one (quick) / all (thorough) of the six provider flags / storage capabilities switched off; quick adds all 64 flag combinations x method x presentation x operation x router at the all-grants web registration; " +
+		"the ApplicationType members user_agent and out-of-range(7) as one further deviation in both tiers; " +
 		"distinct = distinct (oracle clause, observed outcome class). " +
 		"Part identity-source (E1): full product caller(7: method x right/wrong credential) x grants of the caller(2) x contradictory client_id form parameter(13; thorough 18) x " +
 		"owner of the redeemed artifact(2) x position of the parameter(6: after/before the own one in the body, URL query, own one in the query, all in the query x2) x operation(8) x router(2), " +
 		"crossed with at most one (quick) / all (thorough) of application type inverse, AuthMethodPost off, AuthMethodPrivateKeyJWT off; every stored device authorization is approved and polled by all 10 registered clients. " +
-		"Part unimplemented-auth-method (E1): the enumeration of the first part for 4 registrations whose AuthMethod() is outside the implemented constants (client_secret_jwt with a secret on file, tls_client_auth without, the empty method with and without a secret); thorough: full product with the channel x at most two of the six flags off")
+		"Part unimplemented-auth-method (E1): the enumeration of the first part for 4 registrations whose AuthMethod() is outside the implemented constants (client_secret_jwt with a secret on file, tls_client_auth without, the empty method with and without a secret); thorough: both groups crossed with the channel, 25 presentations")
 	c.Assume(
 		"refstore is the storage (trusted): secret authentication fails for clients without a secret; service users are the clients of the client_credentials grant",
 		"a private_key_jwt client never has a secret on file; a public client never has a secret on file",
@@ -962,9 +985,11 @@ func TestCheck(t *testing.T) {
 	main := []string{"method", "grants", "app", "keys", "pres", "op", "router"}
 	flags := []string{"post", "jwt", "refresh", "capcc", "capte", "capdev"}
 	groups := [][]string{main, append([]string{"method", "pres", "op", "router"}, flags...)}
-	ks := []int{1, 0} // "at most one deviation" now ranges over the six flags and the parameter channel
+	ks := []int{1, 0} // "at most one deviation" ranges over the six flags, the parameter channel and the further ApplicationType members
 	if c.Thorough() {
-		groups, ks = [][]string{append(slices.Clone(main), "channel")}, []int{len(flags)}
+		// the full product of everything but apptype, plus (second group, the vectors of the first are not repeated)
+		// the full registration x presentation x operation x router product for each further ApplicationType member
+		groups, ks = [][]string{append(append(slices.Clone(main), "channel"), flags...), main}, []int{0, 1}
 	}
 	if devOnly != "" && devOnly != "client-auth-and-grant" {
 		// development aid (never set by vcheck): run one part only; the run is reported as not exhaustive
@@ -996,10 +1021,10 @@ func TestCheck(t *testing.T) {
 // runUnimplementedPart: the same enumeration and the same reference predicate for registrations whose AuthMethod()
 // is outside the constants the library implements (enum members the library has no code for, and the empty string).
 // quick: the two groups of the main part (full registration x presentation x operation x router with at most one of
-// {six flags, channel} deviating; all 64 flag combinations at the all-grants web registration). thorough: the full
-// product with the parameter channel x at most two of the six flags switched off (the main part's thorough tier has
-// all 64; the flags interact with the auth method only through the post / private_key_jwt branches, which an
-// unimplemented method never takes).
+// {six flags, channel, further ApplicationType member} deviating; all 64 flag combinations at the all-grants web
+// registration). thorough: both groups additionally crossed with the parameter channel, and the larger presentation
+// alphabet (the main part's thorough tier has the full product with all 64 flag combinations; the flags interact with
+// the auth method only through the post / private_key_jwt branches, which an unimplemented method never takes).
 func runUnimplementedPart(t *testing.T, c *engine.Check, full bool) {
 	sp := buildSpace(full, unimplNames())
 	main := []string{"method", "grants", "app", "keys", "pres", "op", "router"}
@@ -1007,7 +1032,7 @@ func runUnimplementedPart(t *testing.T, c *engine.Check, full bool) {
 	groups := [][]string{main, append([]string{"method", "pres", "op", "router"}, flags...)}
 	ks := []int{1, 0}
 	if c.Thorough() {
-		groups, ks = [][]string{append(slices.Clone(main), "channel")}, []int{2}
+		groups = [][]string{append(slices.Clone(main), "channel"), append([]string{"method", "pres", "op", "router", "channel"}, flags...)}
 	}
 	c.RunE1(engine.E1{
 		Part:   "unimplemented-auth-method",
